@@ -1,4 +1,4 @@
-//! C05 under Miri: every operation sequence up to a depth, over registries of 0, 2, 4, 8 and 9 components, executed on the
+//! C05 under Miri: every operation sequence up to a depth, over registries of 0, 2, 4, 5 (first component one byte wide), 8 and 9 components, executed on the
 //! real `World` with the interpreter as the oracle for what the checking allocator of the other engines cannot see (reads
 //! outside an allocation, misaligned or dangling references that are never written through, invalid values, leaks at exit).
 //! No custom allocator, no signal handlers: plain `std`.  One line `HIST <registry> <ops>` is printed before each sequence, so
@@ -27,6 +27,19 @@ macro_rules! comps {
     };
 }
 comps!(T0, T1, T2, T3, T4, T5, T6, T7, T8);
+/// one byte, no destructor: puts the components after it at odd offsets of the packed row buffer of Entry::add / remove
+#[derive(Clone, Debug, PartialEq, Serialize, Deserialize)]
+pub struct U1(pub u8);
+pub trait Mk {
+    fn mk(v: u32) -> Self;
+}
+impl Mk for U1 {
+    fn mk(v: u32) -> Self {
+        U1(v as u8)
+    }
+}
+macro_rules! mk_box { ($($t:ident),*) => { $(impl Mk for $t { fn mk(v: u32) -> Self { $t(Box::new(v)) } })* }; }
+mk_box!(T0, T1, T2, T3, T4, T5, T6, T7, T8);
 /// zero-sized with a destructor
 #[derive(Clone, Debug, PartialEq, Serialize, Deserialize)]
 pub struct Z;
@@ -44,9 +57,9 @@ fn round_trip<W: Serialize + for<'de> Deserialize<'de> + PartialEq>(w: &W, human
     back
 }
 
-pub const NOPS: usize = 16;
+pub const NOPS: usize = 17;
 pub const OP_NAMES: [&str; NOPS] = ["insert_first", "insert_last_first", "extend_mid_last_x2", "remove_oldest", "add_last_to_newest", "remove_first_from_oldest", "mut_query_last",
-    "filtered_query", "clear", "clone", "shrink", "rt_compact", "rt_human_seq", "reserve_rev", "entries_query", "par_query"];
+    "filtered_query", "clear", "clone", "shrink", "rt_compact", "rt_human_seq", "reserve_rev", "entries_query", "par_query", "remove_last_and_mid_from_newest"];
 
 macro_rules! harness {
     ($name:ident, [$($t:ty),*], $first:ident, $mid:ident, $last:ident) => {
@@ -61,9 +74,9 @@ macro_rules! harness {
                 let mut aux: Option<W> = None;
                 for &op in ops {
                     match op {
-                        0 => ids.push(w.insert(entity!($first(Box::new(1))))),
-                        1 => ids.push(w.insert(entity!($last(Box::new(2)), $first(Box::new(3))))),
-                        2 => ids.extend(w.extend(entities!(($mid(Box::new(4)), $last(Box::new(5))); 2))),
+                        0 => ids.push(w.insert(entity!(<$first as Mk>::mk(1)))),
+                        1 => ids.push(w.insert(entity!(<$last as Mk>::mk(2), <$first as Mk>::mk(3)))),
+                        2 => ids.extend(w.extend(entities!((<$mid as Mk>::mk(4), <$last as Mk>::mk(5)); 2))),
                         3 => {
                             if !ids.is_empty() {
                                 let id = ids.remove(0);
@@ -75,8 +88,8 @@ macro_rules! harness {
                         }
                         4 => {
                             if let Some(mut e) = ids.last().and_then(|id| w.entry(*id)) {
-                                e.add($last(Box::new(6)));
-                                e.add($mid(Box::new(7)));
+                                e.add(<$last as Mk>::mk(6));
+                                e.add(<$mid as Mk>::mk(7));
                             }
                         }
                         5 => {
@@ -119,11 +132,24 @@ macro_rules! harness {
                                     if let Some(result!(l)) = e.query(Query::<Views!(&mut $last)>::new()) {
                                         *l.0 += 1;
                                     }
+                                    // optional sub-views of the required entry view, also for entities without it
+                                    if let Some(result!(l, f)) = e.query(Query::<Views!(Option<&mut $last>, Option<&$first>)>::new()) {
+                                        std::hint::black_box((l.is_some(), f.is_some()));
+                                    }
+                                    if let Some(result!(l)) = e.query(Query::<Views!(Option<&$last>)>::new()) {
+                                        std::hint::black_box(l.is_some());
+                                    }
                                 }
                             }
                         }
+                        16 => {
+                            if let Some(mut e) = ids.last().and_then(|id| w.entry(*id)) {
+                                e.remove::<$last, _>();
+                                e.remove::<$mid, _>();
+                            }
+                        }
                         _ => par(&mut w, |w| {
-                            let n: u32 = w.par_query(Query::<Views!(&mut $last, Option<&$first>)>::new()).iter.map(|result!(l, f)| { *l.0 += 1; f.map_or(0, |f| *f.0) }).sum();
+                            let n: u32 = w.par_query(Query::<Views!(&mut $last, Option<&$first>)>::new()).iter.map(|result!(l, f)| { *l.0 += 1; f.map_or(0u32, |_| 1) }).sum();
                             std::hint::black_box(n);
                         }),
                     }
@@ -150,6 +176,7 @@ mod rayon_free {
 
 harness!(r2, [T0, T1], T0, T0, T1);
 harness!(r4, [T0, Z0, T1, T2], T0, T1, T2);
+harness!(r5, [U1, T0, Z0, T1, T2], U1, T1, T2);
 harness!(r8, [T0, T1, T2, T3, T4, T5, T6, T7], T0, T3, T7);
 harness!(r9, [T0, T1, T2, T3, T4, T5, T6, T7, T8], T0, T7, T8);
 pub type Z0 = Z;
@@ -214,6 +241,7 @@ fn run_reg(name: &str, ops: &[usize]) {
         "r0" => r0::run(ops),
         "r2" => r2::run(ops),
         "r4" => r4::run(ops),
+        "r5" => r5::run(ops),
         "r8" => r8::run(ops),
         _ => r9::run(ops),
     }
@@ -229,7 +257,7 @@ fn main() {
         return;
     }
     let depth: usize = args.get(1).and_then(|s| s.parse().ok()).unwrap_or(2);
-    let regs: Vec<String> = args.get(2).map_or(vec!["r0", "r2", "r4", "r8", "r9"].into_iter().map(String::from).collect(), |s| s.split(',').map(String::from).collect());
+    let regs: Vec<String> = args.get(2).map_or(vec!["r0", "r2", "r4", "r5", "r8", "r9"].into_iter().map(String::from).collect(), |s| s.split(',').map(String::from).collect());
     let with_par = args.get(3).map_or(false, |s| s == "par");
     let mut total = 0u64;
     for r in &regs {
